@@ -795,19 +795,16 @@ pub fn repeated_failure_verdicts(ty: Ty, k: u64, calls: usize) -> Vec<(String, S
         env.shp.fail_at(k, FaultMode::Persistent);
         let mut bad = vec![];
         let mut w = ShapeWriter::with_shx(env.shp.clone(), env.shx.clone().unwrap());
-        let mut failing = false;
         for i in 0..calls {
             let before = env.shp.faults_fired();
             let r = catch(|| crate::bridge::write_shape(&mut w, &pal.lib[i % 2]).map_err(|e| crate::bridge::err_kind(&e)));
             let fired = env.shp.faults_fired() > before;
-            failing |= fired;
             match r {
                 Err(p) => {
                     bad.push((format!("{}:repeated-failures:{}", ty.name(), p.sig()), format!("write_shape number {} on a destination that has stopped working: {}", i, p.msg)));
                     break;
                 }
                 Ok(Ok(())) if fired => bad.push((format!("{}:repeated-failures:failure-not-reported", ty.name()), format!("write_shape number {} returned Ok although an operation of it failed", i))),
-                Ok(Ok(())) if failing => bad.push((format!("{}:repeated-failures:success-without-writing", ty.name()), format!("write_shape number {} returned Ok without the destination accepting anything", i))),
                 _ => {}
             }
             if bad.len() > 3 {
